@@ -72,6 +72,10 @@ class Injected(Exception):
     pass
 
 
+class HookVeto(Exception):
+    pass
+
+
 # ------------------------------------------------------------------ python objects from case values
 
 _rd_cache = {}
@@ -197,6 +201,8 @@ def code(e):
     T = dns.transaction
     if isinstance(e, Injected):
         return Err(77, "injected")
+    if isinstance(e, HookVeto):
+        return Err(40, "HookVeto")
     t = type(e)
     if t is T.DeleteNotExact:
         return Err(20, "DeleteNotExact")
@@ -254,12 +260,64 @@ def do_op(txn, op):
     raise ValueError("bad op")
 
 
+HOOKS = None  # [put hooks, delete-rdataset hooks, delete-name hooks] of the case being run
+
+
+def hook_fn(h, kind):
+    k = h[0]
+
+    def veto_if(cond):
+        if cond:
+            raise HookVeto()
+
+    if kind == "put":
+        def f(txn, name, rdataset):
+            if k == 0:
+                veto_if(int(rdataset.rdtype) == h[1])
+            elif k == 1:
+                veto_if(rdataset.ttl > h[1])
+            elif k == 2:
+                veto_if(name == dns.name.Name(h[1]))
+            else:
+                veto_if(txn.get(name, h[1]) is None)
+    elif kind == "del_rds":
+        def f(txn, name, rdtype, covers):
+            if k == 0:
+                veto_if(int(rdtype) == h[1])
+            elif k == 1:
+                veto_if(0 > h[1])
+            elif k == 2:
+                veto_if(name == dns.name.Name(h[1]))
+            else:
+                veto_if(txn.get(name, h[1]) is None)
+    else:
+        def f(txn, name):
+            if k == 0:
+                veto_if(0 == h[1])
+            elif k == 1:
+                veto_if(0 > h[1])
+            elif k == 2:
+                veto_if(name == dns.name.Name(h[1]))
+            else:
+                veto_if(txn.get(name, h[1]) is None)
+    return f
+
+
 def open_txn(z, mode):
     if mode == 0:
-        return z.writer()
-    if mode == 1:
-        return z.writer(replacement=True)
-    return z.reader()
+        txn = z.writer()
+    elif mode == 1:
+        txn = z.writer(replacement=True)
+    else:
+        txn = z.reader()
+    if HOOKS is not None:
+        for h in HOOKS[0]:
+            txn.check_put_rdataset(hook_fn(h, "put"))
+        for h in HOOKS[1]:
+            txn.check_delete_rdataset(hook_fn(h, "del_rds"))
+        for h in HOOKS[2]:
+            txn.check_delete_name(hook_fn(h, "del_name"))
+    return txn
 
 
 def run_txn(z, mode, style, ops, fault):
@@ -327,7 +385,9 @@ def all_node_objects(z):
 
 
 def run_case(case, full=False):
-    cfg, probes, hist = case
+    global HOOKS
+    cfg, probes, hist = case[:3]
+    HOOKS = case[3] if len(case) > 3 else None
     kind, rel, origin = cfg[:3]
     idobs = cfg[3] if len(cfg) > 3 else 1
     z = ZONES[kind](dns.name.Name(origin), relativize=bool(rel))
@@ -376,8 +436,10 @@ def impl(case):
     _full[repr(case)] = full
     out = []
     for t in full:
-        nobs = t[4]
         idobs = len(case[0]) <= 3 or case[0][3]
+        if len(case) > 3:
+            out.append(t[:2])
+            continue
         o = t[:4] if idobs else t[:2]
         if case[0][0] == 2:
             o = o + [t[7]]
@@ -434,8 +496,25 @@ class RefTxn:
     def is_origin(self, labels):
         return self.canon(labels) == tuple(lower(l) for l in self.zone.origin)
 
+    # -- check functions registered on the transaction (they see the owner as given by the caller)
+    def run_hooks(self, which, owner, ty, ttl):
+        for h in (self.zone.hooks[which] if self.zone.hooks else []):
+            k = h[0]
+            if k == 0 and ty == h[1]:
+                raise RefErr(OTHER)
+            if k == 1 and ttl > h[1]:
+                raise RefErr(OTHER)
+            if k == 2:
+                a, b = owner, h[1]
+                if (bool(a) and a[-1] == b"") == (bool(b) and b[-1] == b"") and [lower(l) for l in a] == [lower(l) for l in b]:
+                    raise RefErr(OTHER)
+            if k == 3 and (self.canon(owner), h[1], 0) not in self.store:
+                raise RefErr(OTHER)
+
     # -- store
-    def put(self, k, ty, cov, ttl, items):
+    def put(self, k, ty, cov, ttl, items, owner=None):
+        if owner is not None:
+            self.run_hooks(0, owner, ty, ttl)
         kind = classify(ty, cov)
         for (k2, t2, c2) in list(self.store):
             if k2 == k and ((kind == "cname" and classify(t2, c2) == "regular") or (kind == "regular" and classify(t2, c2) == "cname")):
@@ -488,7 +567,7 @@ class RefTxn:
             else:
                 nitems = list(oitems) + [x for x in items if x not in oitems]
             ttl, items = nttl, nitems
-        self.put(k, ty, cov, ttl, items)
+        self.put(k, ty, cov, ttl, items, owner)
 
     def delete(self, args, exact):
         if len(args) >= 2 and args[0][0] in (0, 1) and args[1][0] in (4, 6):
@@ -503,6 +582,7 @@ class RefTxn:
                 if exact:
                     raise RefErr(NOTEXACT)
                 return
+            self.run_hooks(1, args[0][1], ty, 0)
             del self.store[(k, ty, cov)]
             self.dirty = True
             return
@@ -537,16 +617,18 @@ class RefTxn:
                 raise RefErr(NOTEXACT)
             left = [x for x in oitems if x not in items]
             if left:
-                self.put(k, ty, cov, ottl, left)
+                self.put(k, ty, cov, ottl, left, owner)
             else:
+                self.run_hooks(1, owner, ty, 0)
                 del self.store[(k, ty, cov)]
                 self.dirty = True
         else:
             # no record set given (or an empty one): the whole name
             k = self.canon(owner)
+            if exact and not self.exists(k):
+                raise RefErr(NOTEXACT)
+            self.run_hooks(2, owner, 0, 0)
             if not self.exists(k):
-                if exact:
-                    raise RefErr(NOTEXACT)
                 return
             for key in [key for key in self.store if key[0] == k]:
                 del self.store[key]
@@ -573,7 +655,7 @@ class RefTxn:
             raise RefErr(READONLY)
         if k != tuple(lower(l) for l in self.zone.origin):
             raise RefErr(OTHER)
-        self.put(k, SOA, 0, old[0], [[body, new]])
+        self.put(k, SOA, 0, old[0], [[body, new]], owner)
 
     def step(self, op):
         k = op[0]
@@ -614,9 +696,10 @@ class RefTxn:
 
 
 class RefZone:
-    def __init__(self, origin):
+    def __init__(self, origin, hooks=None):
         self.origin = origin
         self.store = {}
+        self.hooks = hooks
 
     def dump(self):
         names = {}
@@ -694,8 +777,8 @@ def oracle(ctx, kind, case, out):
         except Hang:
             fail("implementation did not terminate (a writer blocked on a transaction that never ended)", sig="hang")
             return F
-    cfg, probes, hist = case
-    ref = RefZone(cfg[2])
+    cfg, probes, hist = case[:3]
+    ref = RefZone(cfg[2], case[3] if len(case) > 3 else None)
     before = []
     for i, (mode, style, ops, fault) in enumerate(hist):
         exp = ref.run_txn(mode, style, ops, fault)
@@ -1202,6 +1285,32 @@ def cases(ctx):
         hist = [g.setup()] if rng.random() < 0.3 else [[0, 1, [[1, [[0, []], [2, [SOA, 0, 3600, [[1, 1]], 1]]]]], -1]]
         hist += [[0, rng.randrange(2), txns[0] + [[11]], -1], [0, 1, txns[1], -1]]
         yield "exclusive", mk_case(kind, rel, origin, hist)
+    # 9. check functions (check_put_rdataset / check_delete_rdataset / check_delete_name) registered on every
+    #    transaction: a veto aborts the call (and a with-block), never half-applies it
+    for i in range(ctx.n(80, 700)):
+        origin = rng.choice(ORIGINS[:4])
+        kind, rel = i % 3, (i // 3) % 2
+        g = Gen(rng, origin)
+
+        def hk(pool):
+            out = []
+            for _ in range(rng.choice([0, 1, 1, 2])):
+                k = rng.choice(pool)
+                if k == 0:
+                    out.append([0, rng.choice([A, TXT, CNAME, NS, SOA])])
+                elif k == 1:
+                    out.append([1, rng.choice([0, 299, 300, 3600])])
+                elif k == 2:
+                    out.append([2, g.spell(rng.choice(RELS[:6]), rng.randrange(2))[1]])
+                else:
+                    out.append([3, rng.choice([A, SOA, TXT])])
+            return out
+
+        hooks = [hk([0, 1, 2, 3]), hk([0, 2, 3]), hk([2, 3])]
+        hist = [g.setup()]
+        for _ in range(rng.choice([1, 2])):
+            hist.append([0, rng.randrange(2), [g.op() for _ in range(rng.choice([2, 4, 6]))], -1])
+        yield "hooks", mk_case(kind, rel, origin, hist)[:1] + [probes_of(origin), hist, hooks]
     # 6. every rdata type of the universe: merged twice through each argument form (the second add meets an
     #    existing - possibly empty - rdataset), read back, deleted by type with boundary type values
     allt = [A, NS, CNAME, SOA, MX, TXT, SIG, KEY, NXT, DNAME, RRSIG, NSEC, NSEC3]
